@@ -130,12 +130,16 @@ def execute(plan):
         ) % (os.path.dirname(os.path.dirname(os.path.dirname(os.path.abspath(__file__)))), jdump(plan))
         env = os.environ.copy()
         env["PYTHONHASHSEED"] = "4242"
-        pr = subprocess.run([sys.executable, "-c", code], capture_output=True, text=True, env=env, timeout=200)
-        got = [ln.split()[1:] for ln in pr.stdout.splitlines() if ln.startswith("DIGEST")]
-        stats["or.fresh_interpreter"] += 1
-        if not got:
-            raise RuntimeError("fresh interpreter probe failed: " + (pr.stdout + pr.stderr)[-500:])
-        if got[0] != [ref_r, ref_e]:
+        try:
+            pr = subprocess.run([sys.executable, "-c", code], capture_output=True, text=True, env=env, timeout=500)
+            got = [ln.split()[1:] for ln in pr.stdout.splitlines() if ln.startswith("DIGEST")]
+            if not got:
+                raise RuntimeError("fresh interpreter probe failed: " + (pr.stdout + pr.stderr)[-500:])
+            stats["or.fresh_interpreter"] += 1
+        except subprocess.TimeoutExpired:
+            got = None
+            stats["nj.fresh_interpreter_timeout"] += 1
+        if got is not None and got[0] != [ref_r, ref_e]:
             add("differs_from_fresh_process", {"here": ref_r[:16], "fresh": got[0][0][:16]})
 
     rng = np.random.Generator(np.random.PCG64([int(plan["inj_seed"]), 23]))
